@@ -55,7 +55,9 @@ CHECKS = {
         text="About 3 500 calls per quick run: exactly one request, method, decoded path, decoded query multimap under ORIGINAL "
              "names, header and cookie parameters, nothing unsupplied present, body media type and content. Arguments are matched to "
              "spec parameters by normalised name, and methods to operations by the request they issue, so no generator naming rule "
-             "is trusted. 1 root cause repaired (cookie parameters never sent), 4 open findings excluded by construction.",
+             "is trusted; same-named parameters: every injective argument assignment is tried; stray cookies/headers (unset parameters, "
+             "cookies of an earlier call on the same client) are violations. 3 root causes repaired (cookie parameters never sent; "
+             "parameters deriving to one identifier; enum members in query arrays), 5 open findings excluded by construction.",
         note="Path values avoid '/', '?', '#', '%' and dot segments; date-time path parameters, `default` values and union-typed bodies are outside the domain (ambiguous statement / C14); null members of JSON bodies may be omitted.",
         design="§5 C04",
     ),
@@ -75,7 +77,7 @@ CHECKS = {
         technique="generated operations x EVERY status 100..199 and 300..599 (exhaustive axis) x {bundled HttpxTransport over MockTransport, custom transport returning responses unraised}; oracle on the raised exception's class, status_code and response",
         text="~640 000 calls per quick run: each behaviourally discovered method is called for all 400 non-2xx statuses on both "
              "transport kinds; it must raise the package's HTTPError carrying that status and response, ClientError for 4xx and "
-             "ServerError for 5xx. Two root causes found and repaired (base HTTPError for 4xx/5xx; `default` with content returning a value).",
+             "ServerError for 5xx. Two root causes found and repaired (base HTTPError for 4xx/5xx; `default` with content returning a value); one open finding (a schema named like a status exception alias shadows it) excluded by construction, error payloads with such names stay in the domain.",
         note="Error bodies are small JSON objects in the sweep (other body shapes: thorough tier); operations come from the C01/C03/C07-clean domain.",
         design="§5 C06",
     ),
@@ -86,7 +88,7 @@ CHECKS = {
              "reached by fewer methods than it has tag groups is silently dropped, by more is duplicated. Attribution is by the "
              "request actually issued, so no naming rule is trusted. Naming-strategy clauses are asserted only where the "
              "documentation is unambiguous (unique snake_case ids kept verbatim; `path` names start with the HTTP method).",
-        note="A package that cannot be compiled/imported in this C01-clean domain is reported (every operation unreachable); a package in which some method cannot be driven to a request with probe arguments is counted as undecided, not as a violation; tag groups compared by lower-cased alphanumeric content.",
+        note="A package that cannot be compiled/imported in this C01-clean domain is reported (every operation unreachable); the same document file generated again in-process with another naming strategy must match a first generation with it; a package in which some method cannot be driven to a request with probe arguments is counted as undecided, not as a violation; tag groups compared by lower-cased alphanumeric content.",
         design="§5 C07",
     ),
     "C08": dict(
@@ -98,14 +100,14 @@ CHECKS = {
              "unaffected. 38 032 enumerated cyclic graphs leave a schema in state not_started (known finding, exact bitmap). "
              "Small cyclic multigraphs must also load with the depth limit switched off (cycle detection, not the limit, has to cut "
              "them; finding C08-F03 excluded by a structural trigger), and whole documents whose operations contain rejected "
-             "sub-schemas must leave the tracker at rest and later operations intact.",
+             "sub-schemas must leave the tracker at rest and later operations intact. Depth grid: 9 chain kinds incl. top-level container and composition chains, linear event budget, and a load aborted by the limit although it succeeds with the limit off is a violation.",
         note="Termination is an event budget, not a proof; surplus (clamped) exit events are not observable state and are not reported; interpreter recursion limit 1000.",
         design="§5 C08",
     ),
     "C09": dict(
         category="exploration",
         technique="Hypothesis-constructed specs (cyclic graphs and discriminated unions included) generated in 4 child interpreters differing in PYTHONHASHSEED, warm-up history, project root and patched wall clock, manifests (relative path -> sha256) compared; in-process histories generate(force);generate(no force) with full-tree snapshots and generate;mutate(edit client/model/models __init__/core file, delete endpoint module);generate(no force)",
-        text="800 documents per quick run, each generated 4+3 times (layouts include a sibling core named <client>_core; schema pairs differing only in letter case). Any byte difference between the child runs, any id()-derived name "
+        text="800 documents per quick run, each generated 4+3 times (layouts include a sibling core named <client>_core; schema pairs differing only in letter case; one child generates the batch in reverse order, one generates a kind-swapped twin of every case immediately before it). Any byte difference between the child runs, any id()-derived name "
              "or absolute path in the output, any touched file or failure in the no-op re-run and any mutation that the non-force run "
              "reports as up to date is a violation. 4 root causes found and repaired (shared-core re-run always 'Differences found', "
              "deleted file unnoticed, suffix-colliding operationIds differing between force and diff path, hash-seed dependent order "
@@ -138,7 +140,8 @@ CHECKS = {
         text="~850 packages per quick run. Every import statement of every emitted file must name the standard library, httpx, cattrs, "
              "the output package or its core; the package is imported and exercised where `pyopenapi_gen` cannot be imported, so a "
              "generator import hidden in a function body of a rarely emitted template is executed; the 8 runtime files must equal "
-             "the generator's own, also when a shared core already contained drifted copies. One open finding (guarded `import black` "
+             "the generator's own, also when a shared core already contained drifted copies (appended line, whitespace-only change, "
+             "re-indented statement). One open finding (guarded `import black` "
              "in the copied utils.py) is matched by its exact signature.",
         note="Exercise arguments are generic; decoding problems during the exercise are ignored (C03), only missing modules count; documentation examples inside docstrings are not imports.",
         design="§5 C12",
@@ -148,7 +151,7 @@ CHECKS = {
         technique="Hypothesis-constructed operation sets (multi-tag, tag spelling variants, overloaded multi-content, streaming, hostile parameter names) through generate_client; introspection oracle on the imported classes (method sets, inspect.signature incl. resolved annotations, coroutine/async-generator nature, typing.get_overloads, runtime_checkable isinstance, NotImplementedError from every mock method, MockAPIClient tag properties)",
         text="~1 400 generated packages per quick run; for every tag client reachable from APIClient its Protocol and its mock are "
              "compared member by member and every mock method is awaited/iterated once. Two root causes found and repaired (mocks "
-             "grouped by raw first tag; mocks resolved types against an empty schema table).",
+             "grouped by raw first tag; mocks resolved types against an empty schema table); one open finding (no 2xx + stream payload on an error response) excluded by construction.",
         note="Annotation equality is by repr of the resolved hint; Protocol stubs for streaming operations may be plain functions returning AsyncIterator; packages outside the C01/C03/C07-clean domain are not generated.",
         design="§5 C13",
     ),
@@ -165,8 +168,8 @@ CHECKS = {
     ),
     "C15": dict(
         category="exploration",
-        technique="complete position x payload x placement matrix (33 text-bearing positions of a template document x 50 hostile payloads mid-text, 18 edge-sensitive payloads also alone / at the start / at the end / on their own line / inside a long wrapped text; thorough: all 50 x 6 placements: quotes, triple quotes, backslash sequences, every Unicode line separator, NUL, bidi/astral characters, expression-injection strings, code-looking lines such as 'async def f(self):' and '@overload') plus Hypothesis text() payloads, through generate_client; oracle = every emitted file parses, the AST skeleton (literals, docstrings and position-derived identifiers masked) equals the benign-payload baseline as a multiset, and semantic literals (enum values, wire names, mapping keys, defaults) evaluate/are sent as exactly the spec string",
-        text="4 620 matrix cases + 400 Hypothesis cases (random text and token concatenations, random placement) per quick run; the matrix is complete for the listed positions and payloads. "
+        technique="complete position x payload x placement matrix (33 text-bearing positions of a template document x 50 hostile payloads mid-text, 24 edge-sensitive payloads also alone / at the start / at the end / on their own line / inside a long wrapped text; thorough: all 50 x 6 placements: quotes, triple quotes, backslash sequences, every Unicode line separator, NUL, bidi/astral characters, expression-injection strings, code-looking lines such as 'async def f(self):' and '@overload') plus Hypothesis text() payloads, through generate_client; oracle = every emitted file parses, the AST skeleton (literals, docstrings and position-derived identifiers masked) equals the benign-payload baseline as a multiset, and semantic literals (enum values, wire names, mapping keys, defaults) evaluate/are sent as exactly the spec string",
+        text="5 610 matrix cases + 400 Hypothesis cases (random text and token concatenations, random placement) per quick run; the matrix is complete for the listed positions and payloads. "
              "A payload may only change string constants, comments and (for name positions) the derived identifiers; the request observed "
              "at a mock transport must carry the raw parameter name. 9 root causes were found and repaired in three fix commits "
              "(unescaped string literals, docstrings closed by triple quotes or a trailing quote, comments ended by CR/U+2028, NUL, surrogate-pair defaults, enum members dropped by Enum).",
@@ -175,7 +178,7 @@ CHECKS = {
     ),
     "C16": dict(
         category="exploration",
-        technique="Hypothesis-built dataclass type trees (make_dataclass, random bijective Meta key maps) x conforming JSON; round-trip laws both directions, differential against a fresh copy of the module (history independence), corrupted-leaf error reporting, serialiser on generated instance graphs (chain/self-loop/ring/diamond/random; two annotation styles) against an independent reference; rings of 1..3 mutually referencing mapped dataclass types decoded first thing in a fresh converter copy",
+        technique="Hypothesis-built dataclass type trees (make_dataclass, random bijective Meta key maps) x conforming JSON; round-trip laws both directions, differential against a fresh copy of the module (history independence), corrupted-leaf error reporting, serialiser on generated instance graphs (chain/self-loop/ring/diamond/random; two annotation styles) against an independent reference; rings of 1..3 mutually referencing mapped dataclass types decoded first thing in a fresh converter copy; a parent/child class pair (back pointer, List, Dict, List[Dict]) for the serialiser",
         text="Each case is a history of up to 5 differently shaped, possibly same-named dataclass types run through one fresh copy of "
              "the working tree's cattrs_converter.py/utils.py; every result must satisfy decode.encode = id, encode.decode = id, equal "
              "the result of a module copy that has seen nothing else, and failures must be ValueErrors naming a field on the path. The "
@@ -197,15 +200,15 @@ CHECKS = {
         category="exploration",
         technique="metamorphic: every constructed document is generated as JSON, YAML block, YAML flow, YAML with unquoted integer status keys and fully quoted YAML (identical file hashes required) and with all mapping keys shuffled / components.schemas, paths, methods and properties permuted (equal normalised package manifest computed from the ASTs of the emitted files: models->fields/annotations/defaults/wire keys, enums->members, aliases->targets, clients->method signatures; union members sorted)",
         text="480 documents x 7 generations per quick run. Style-only re-renderings must be byte-identical; reorderings may only change "
-             "the order of declarations. 3 open findings (primary request content type, numbering of anonymous array item models, "
-             "primary response of operations without 2xx all depend on key order) are excluded by construction; the integer-status-key "
+             "the order of declarations. 4 open findings (primary request content type, numbering of anonymous array item models, "
+             "primary response of operations without 2xx, duplicate emission of renamed schemas - all depend on key order) are excluded by construction; the integer-status-key "
              "defect found here was repaired under C07.",
         note="Documents with reference cycles or colliding/derivation-sensitive names are outside the domain (C02-F01, C20); permutations are a pure function of the case's perm_seed; 2 permutations per document.",
         design="§5 C19",
     ),
     "C20": dict(
         category="exploration",
-        technique="(a) exhaustive enumeration of all strings of length <=4 over an 18-character alphabet through every name-derivation function with a call site, plus Hypothesis Unicode text and keyword spellings; validity predicate oracle (non-empty, isidentifier, not keyword). (b) raw names that are distinct but collide after derivation, placed in one namespace (properties of a schema, parameters of an operation, component schemas, values of an enum, operations of a tag, also when they meet there only through their second tag) of a real document: all pairs and triples of a 15-name collision cluster, all pairs of 25 keyword-like spellings, Hypothesis-built clusters (12 spelling styles x 12 suffixes incl. the suffixes de-collision itself hands out); through generate_client + import; oracle = semantic identity of every name (decode/encode round trip per property, parameter values observed on the wire, class per schema and reference targets, enum member values, reachability of every operation by a method of its own)",
+        technique="(a) exhaustive enumeration of all strings of length <=4 over an 18-character alphabet through every name-derivation function with a call site, plus Hypothesis Unicode text and keyword spellings; validity predicate oracle (non-empty, isidentifier, not keyword). (b) raw names that are distinct but collide after derivation, placed in one namespace (properties of a schema, parameters of an operation - also split between path item and operation, and on a multi-content operation -, component schemas, values of an enum, operations of a tag, also when they meet there only through their second tag) of a real document: all pairs and triples of a 15-name collision cluster, all pairs of 25 keyword-like spellings, Hypothesis-built clusters (12 spelling styles x 12 suffixes incl. the suffixes de-collision itself hands out); through generate_client + import; oracle = semantic identity of every name (decode/encode round trip per property, parameter values observed on the wire, class per schema and reference targets, enum member values, reachability of every operation by a method of its own)",
         text="Totality/validity is decided exhaustively for short strings (111 151 strings x 5 derivation functions) and sampled for "
              "long Unicode strings; collision-safety is decided on ~3 600 generated packages per quick run by checking that every raw "
              "name keeps an identity of its own in the imported package. 2 open findings (schemas with equal derived class name are "
